@@ -20,6 +20,8 @@ CONSTANTS
   EShift = 12
   SNum = {1}
   SDen = {1}
+  LSNum = {1}
+  Keywords = "independent"
   Args = "lin_in_place"
   Export = FALSE
 INVARIANT ArgsFrameInv
